@@ -721,6 +721,15 @@ func execScenario(sc *Scenario, opt lib.GenOptions, withTrace bool) *ExecResult 
 					}
 					r.hit("failed-op:store-wrong-parent")
 				}
+				if c, attempted, err := a.StoreUnsupportedVersion(bd); attempted {
+					r.op("A.store of fork%d[0] with protocol version 0.15.0 (must fail)", ri)
+					r.Trace.store(a, c, nil, err)
+					if err == nil {
+						r.find("block-with-unsupported-version-stored", "Store accepted a block whose protocol version is above the latest supported one", nil)
+						return r
+					}
+					r.hit("failed-op:store-unsupported-version")
+				}
 				if len(line.cg.Bundles) >= 2 {
 					// a block that does not extend the head (its parent is stored already)
 					if err := storeOn(a, line.cg.Bundles[len(line.cg.Bundles)-2], nil); err == nil {
